@@ -18,12 +18,65 @@ func init() {
 		Explanation: "Static decision of the structure of path-rule resolution: (1) FIELDS-merge: mergePathConf writes every setting of a path rule (all exported fields except the prefix itself) into the accumulator, taking the later (longer) rule's value when it sets the field and keeping the accumulated value otherwise — Nvl(b.f, a.f) argument order, `if b.f is set {a.f = b.f}` guards, `b.f || a.f`; " +
 			"(2) ORDER-match: MatchStorageRule merges every rule reported by the prefix match into one accumulator (accumulator first, rule second) and never stops the walk early; (3) GUARD-delete: DeleteLocationConf drops exactly the rule whose key equals the given prefix byte for byte, re-inserts every other rule and installs the rebuilt set. " +
 			"That the trie reports shorter prefixes before longer ones is trusted (ptrie.MatchPrefix). Also decided: every answer of MatchStorageRule is the accumulator built for this lookup after the prefix walk; kept rules are re-inserted under a private copy of their key.",
-		Assumptions: []string{"ptrie.MatchPrefix visits matching prefixes from shortest to longest", "a field counts as set when it is not its zero value"},
+		Assumptions: []string{"ptrie.MatchPrefix visits matching prefixes from shortest to longest", "viant/ptrie keeps one value per distinct KeyProvider.Key() (the first one registered for that key)", "a field counts as set when it is not its zero value"},
 		Trusted:     append([]string{"github.com/viant/ptrie prefix walk order"}, baseTrusted...),
 	})
 }
 
 func runC23(c *eng.Ctx) {
+
+	// KEY-identity: viant/ptrie keeps one value per distinct KeyProvider.Key() and the FIRST value registered for a key
+	// (assumption, read from the vendored source): two rules that differ in any field must therefore have different keys,
+	// or re-configuring a prefix silently keeps the old rule. The key is the encoding of the whole rule.
+	if fn := c.P.Func("weed/pb/filer_pb", "(*FilerConf_PathConf).Key"); fn != nil {
+		c.Touch(fn)
+		for i, r := range eng.Find(fn, eng.IsReturn) {
+			whole := false
+			eng.Walk(r.(*ssa.Return).Results[0], 8, func(v ssa.Value) bool {
+				if call, ok := v.(*ssa.Call); ok && eng.CalleeIs(call, "proto.Marshal") && len(call.Call.Args) == 1 {
+					if eng.Mentions(call.Call.Args[0], 3, func(x ssa.Value) bool { return x == ssa.Value(fn.Params[0]) }) {
+						whole = true
+					}
+				}
+				return true
+			})
+			c.Ob("KEY-identity", fmt.Sprintf("%s whole-rule#%d", eng.FuncName(fn), i), whole, r.Pos(),
+				"the key under which the prefix tree de-duplicates rule values is the encoding of the whole rule, so a changed rule for the same prefix is a different value")
+		}
+	} else {
+		c.Undecided("KEY-identity", "discovery", token.NoPos, "FilerConf_PathConf.Key not found")
+	}
+
+	// FRESH-conf: a configuration text describes the whole rule set; loading only adds the rules present in the text, so a
+	// (re)load must start from an empty FilerConf (NewFilerConf) and replace the live one: loading into the live object
+	// keeps rules that were deleted from the text
+	nLoad := 0
+	for _, top := range c.P.SrcFuncs("weed/filer") {
+		if top.Signature.Recv() != nil && eng.TypeName(top.Signature.Recv().Type()) == "FilerConf" {
+			continue // the loaders calling each other on their own receiver
+		}
+		for i, in := range eng.Find(top, eng.CallTo("filer.FilerConf).loadFromChunks", "filer.FilerConf).loadFromFiler", "filer.FilerConf).LoadFromBytes")) {
+			nLoad++
+			c.Touch(top)
+			recv := eng.RecvOf(in.(ssa.CallInstruction))
+			fresh := recv != nil
+			if fresh {
+				vals := freshSources(top, recv)
+				fresh = len(vals) > 0
+				for _, v := range vals {
+					call, ok := v.(*ssa.Call)
+					if !ok || !eng.CalleeIs(call, "filer.NewFilerConf") {
+						fresh = false
+					}
+				}
+			}
+			c.Ob("FRESH-conf", fmt.Sprintf("%s loads-into-new-conf#%d", eng.FuncName(top), i), fresh, in.Pos(),
+				"a configuration is loaded into a FilerConf created empty for it (NewFilerConf), never into the live one")
+		}
+	}
+	if nLoad < 2 {
+		c.Undecided("FRESH-conf", "discovery", token.NoPos, fmt.Sprintf("only %d configuration load sites found in weed/filer (expected 2)", nLoad))
+	}
 	P := c.P
 	// ---------------------------------------------------------------- (1) FIELDS-merge
 	fn := c.NeedFunc("weed/filer", "mergePathConf")
@@ -279,4 +332,37 @@ func runC23(c *eng.Ctx) {
 	}
 	c.Expect("GUARD-delete", 5)
 	_ = strings.TrimSpace
+}
+
+// freshSources resolves the receiver of a load call to the values it may denote; a receiver captured by a function
+// literal is followed to its binding in the enclosing function.
+func freshSources(fn *ssa.Function, recv ssa.Value) []ssa.Value {
+	var out []ssa.Value
+	for _, v := range eng.Resolve(recv) {
+		v = eng.Unwrap(v)
+		if u, ok := v.(*ssa.UnOp); ok && u.Op == token.MUL {
+			if fv, isFV := u.X.(*ssa.FreeVar); isFV && fn.Parent() != nil {
+				if b := boundTo(fn.Parent(), fn, fv); b != nil {
+					if al, isAl := b.(*ssa.Alloc); isAl {
+						for _, r := range *al.Referrers() {
+							if st, isSt := r.(*ssa.Store); isSt && st.Addr == ssa.Value(al) {
+								out = append(out, eng.Unwrap(st.Val))
+							}
+						}
+						continue
+					}
+					out = append(out, b)
+					continue
+				}
+			}
+		}
+		if fv, isFV := v.(*ssa.FreeVar); isFV && fn.Parent() != nil {
+			if b := boundTo(fn.Parent(), fn, fv); b != nil {
+				out = append(out, freshSources(fn.Parent(), b)...)
+				continue
+			}
+		}
+		out = append(out, v)
+	}
+	return out
 }
